@@ -12,8 +12,16 @@
 (* taken from).  A displayed colour is <<>> (the terminal's default colour) or *)
 (* <<r, g, b>> with 8-bit channels.  A pixel whose 8-bit alpha is below     *)
 (* Threshold is "sufficiently transparent" (the library documents 50).      *)
-(* A displayed channel v stands for the straight (un-premultiplied) channel *)
-(* c*255/a exactly, to within less than one unit: |v - c*255/a| < 1.        *)
+(*                                                                          *)
+(* The colour of a pixel is its straight (un-premultiplied) colour.  The    *)
+(* premultiplied 16-bit form of an 8-bit straight channel v under the       *)
+(* 16-bit alpha a is v*a/255 rounded down (the colour model's definition:   *)
+(* v*257 * a / 65535).  When a pixel's channel c IS the premultiplied form  *)
+(* of some 8-bit v (every pixel of an 8-bit straight-alpha source is, at    *)
+(* every alpha level), v is the pixel's colour and the cell shows v itself: *)
+(* "exactly the colours of the source pixels".  Otherwise (premultiplied    *)
+(* and 16-bit sources: c*255/a is no 8-bit value) either neighbour of       *)
+(* c*255/a is admissible: |v - c*255/a| < 1.                                *)
 EXTENDS Integers, Sequences
 
 Threshold == 50
@@ -22,7 +30,17 @@ NoPixel == <<>>
 Alpha8(px) == px[4] \div 257
 Transparent(px) == px = NoPixel \/ Alpha8(px) < Threshold
 
-ChanOK(v, c, a) == v * a - c * 255 < a /\ c * 255 - v * a < a
+(* c is the premultiplied form of the 8-bit straight value v under alpha a *)
+Exact(v, c, a) == 0 <= v * a - 255 * c /\ v * a - 255 * c < 255
+(* the 8-bit values a displayed channel may have for the pixel channel c, alpha a (a > 0, c <= a): *)
+(* an exact v lies within 255/a < 1 above c*255/a, so it is one of the two neighbours              *)
+ChanVals(c, a) ==
+  LET lo == (c * 255) \div a
+      ex == {u \in {lo, lo + 1} : Exact(u, c, a)}
+  IN IF ex # {} THEN ex ELSE {lo, lo + 1}
+ChanOK(v, c, a) == v \in ChanVals(c, a)
+SetMin(S) == CHOOSE x \in S : \A y \in S : x <= y
+SetMax(S) == CHOOSE x \in S : \A y \in S : y <= x
 
 (* the colour col shows exactly pixel px *)
 Shows(col, px) ==
@@ -37,14 +55,21 @@ HalfOK(topCol, botCol, top, bot) == Shows(topCol, top) /\ Shows(botCol, bot)
 (* the default colour when all of them are transparent; when none is, a     *)
 (* colour lying (per channel) between the covered pixels' colours - hence   *)
 (* exactly their colour when they agree or when only one pixel is covered.  *)
-(* One transparent and one opaque pixel under a one-colour cell: left open. *)
+(* One sufficiently transparent pixel (it maps to the default colour: its   *)
+(* own colour is not to be seen) and one visible pixel under a one-colour   *)
+(* cell: the cell shows one of the two, the default colour or exactly the   *)
+(* visible pixel's colour - never a colour that the transparent pixel's     *)
+(* channels or alpha went into.                                             *)
+Between(col, V) ==
+  /\ Len(col) = 3
+  /\ \A k \in 1..3 : /\ \E p \in V : col[k] <= SetMax(ChanVals(p[k], p[4]))     \* not above the largest
+                     /\ \E p \in V : col[k] >= SetMin(ChanVals(p[k], p[4]))     \* not below the smallest
 FullOK(col, top, bot) ==
-  LET S == {p \in {top, bot} : p # NoPixel} IN
-  IF \A p \in S : Transparent(p) THEN col = <<>>
-  ELSE IF \E p \in S : Transparent(p) THEN TRUE
-  ELSE /\ Len(col) = 3
-       /\ \A k \in 1..3 : /\ \E p \in S : col[k] * p[4] - p[k] * 255 < p[4]     \* not above the largest
-                          /\ \E p \in S : p[k] * 255 - col[k] * p[4] < p[4]     \* not below the smallest
+  LET S == {p \in {top, bot} : p # NoPixel}
+      V == {p \in S : ~Transparent(p)}
+  IN IF V = {} THEN col = <<>>
+     ELSE IF V # S THEN col = <<>> \/ Between(col, V)
+     ELSE Between(col, V)
 
 (* A block image scaled down to ow x oh cells (whatever the resampling, as long as an output  *)
 (* pixel is computed from the source pixels it covers and their immediate neighbours): a cell *)
@@ -62,11 +87,17 @@ Foot(px, iw, ih, ow, oh, x, y) ==
       y1 == Min(ih - 1, ((2 * y + 2) * ih + (2 * oh - 1) - 1) \div (IF oh = 1 THEN 1 ELSE 2 * oh - 1))
   IN {px[yy * iw + xx + 1] : xx \in x0..x1, yy \in y0..y1}
 Opaque(p) == p # NoPixel /\ p[4] = 65535
+Clear0(p) == p = NoPixel \/ p[4] = 0
 (* last: the cell is in the last cell row, whose lower half lies beyond an image of odd pixel height *)
+(* Third rule: a widened footprint made of ONE opaque colour and fully transparent (alpha 0)        *)
+(* pixels only: every output pixel is that colour at some coverage or nothing at all, so each half  *)
+(* of the cell shows that colour or the default colour (the colour of an alpha-0 pixel is nobody's) *)
 ScaledCellOK(topCol, botCol, F, last) ==
   IF \A p \in F : Transparent(p) THEN topCol = <<>> /\ botCol = <<>>
   ELSE IF \E p \in F : Opaque(p) /\ F = {p} THEN
        LET p == CHOOSE q \in F : TRUE IN Shows(topCol, p) /\ (Shows(botCol, p) \/ (last /\ botCol = <<>>))
+  ELSE IF \E p \in F : Opaque(p) /\ \A q \in F : q = p \/ Clear0(q) THEN
+       LET p == CHOOSE q \in F : Opaque(q) IN (topCol = <<>> \/ Shows(topCol, p)) /\ (botCol = <<>> \/ Shows(botCol, p))
   ELSE TRUE
 
 (* px: the image's pixels, row-major, iw wide, ih high; cell (x, y). *)
